@@ -159,6 +159,22 @@ func (msg *Message) Array() (*Array, error) {
 	return nil, fmt.Errorf(errorInvalidMessageType, msg.Type)
 }
 
+// lineSafeBytes returns the bytes with CR and LF replaced by spaces
+// because simple strings, errors and integers must not contain newlines.
+func lineSafeBytes(b []byte) []byte {
+	if !bytes.ContainsAny(b, "\r\n") {
+		return b
+	}
+	safeBytes := make([]byte, len(b))
+	for n, c := range b {
+		if c == cr || c == lf {
+			c = ' '
+		}
+		safeBytes[n] = c
+	}
+	return safeBytes
+}
+
 // RESPBytes returns the RESP byte representation.
 func (msg *Message) RESPBytes() ([]byte, error) {
 	var respBytes bytes.Buffer
@@ -170,7 +186,7 @@ func (msg *Message) RESPBytes() ([]byte, error) {
 			return nil, fmt.Errorf(errorUnknownMessageType, msg.Type)
 		}
 		respBytes.WriteByte(b)
-		respBytes.Write(msg.bytes)
+		respBytes.Write(lineSafeBytes(msg.bytes))
 		respBytes.WriteRune(cr)
 		respBytes.WriteRune(lf)
 	case BulkMessage:
